@@ -45,6 +45,15 @@ def _layout(X, p):
     raise ValueError(lay)
 
 
+def _flag(b, form):
+    """a Boolean flag as the caller may write it: True / False, 1 / 0, or a numpy bool (the result of np.all(...), a comparison of numpy scalars)"""
+    if form == "int":
+        return 1 if b else 0
+    if form == "npbool":
+        return np.bool_(bool(b))
+    return bool(b)
+
+
 def _intseq(vals, form):
     """a sequence of integers in the form the caller might hold it: list (default), tuple, ndarray, list of numpy ints"""
     vals = [int(v) for v in vals]
@@ -151,7 +160,7 @@ def ps_index(p):
     dim = _dim_arg(p, rd, cd)
     args = [Xin, _intseq(p["perm"], p.get("permform")), dim]
     if not p.get("defaults"):
-        args += [bool(p["row_only"]), bool(p["inv"])]
+        args += [_flag(p["row_only"], p.get("flagform")), _flag(p["inv"], p.get("flagform"))]
     got = permute_systems(*args)
     if hasattr(got, "toarray"):
         got = got.toarray()
@@ -292,7 +301,7 @@ def swap_index(p):
                 W[i * d + j, j * d + i] = 1
         _eq(got, (W @ X) if p["row_only"] else (W @ X @ W.T), "swap(X%s) with sys and dim omitted" % (", row_only=True" if p["row_only"] else ""))
         return
-    got = swap(X, list(p["sys"]), dim, bool(p["row_only"]))
+    got = swap(X, list(p["sys"]), dim, _flag(p["row_only"], p.get("flagform")))
     _eq(got, R.ref_swap(X, p["sys"], rd, cd, p["row_only"]), "swap")
 
 
@@ -316,6 +325,9 @@ def ptrace_index(p):
     d = p["dims"]
     N = int(np.prod(d))
     X = _entries((N, N), p.get("entries", "arange"))
+    scale = p.get("scale")
+    if scale is not None:  # homogeneity: an operator of tiny (or huge) magnitude is an operator like any other; compared relative to its scale
+        X = X * float(scale)
     S = list(p["sys"])
     sys_arg = int(S[0]) if p.get("sysform") == "int" else (np.int64(S[0]) if p.get("sysform") == "npint-scalar" else _intseq(S, p.get("sysform")))
     form = p.get("dimform", "list")
@@ -339,6 +351,12 @@ def ptrace_index(p):
     else:
         got = partial_trace(Xin, sys_arg, dim)
     exp = R.ref_partial_trace(X, S, d)
+    if scale is not None:
+        got = np.asarray(got)
+        if got.dtype != np.asarray(exp).dtype:
+            raise Violation("partial_trace of a %s operator of magnitude %g has dtype %s" % (np.asarray(exp).dtype, float(scale), got.dtype))
+        _eq(got / float(scale), np.asarray(exp) / float(scale), "partial_trace (operator of magnitude %g, compared relative to it)" % float(scale))
+        return
     _eq(got, exp, "partial_trace")
 
 
@@ -464,6 +482,21 @@ def ptranspose_cvxpy(p):
     N = int(np.prod(d))
     rng = np.random.default_rng(p.get("seed", 0))
     kind = p.get("var", "complex")
+    if p.get("cdims"):  # a rectangular variable: row dimensions `dims`, column dimensions `cdims` (two-row dim argument)
+        cd = p["cdims"]
+        M = int(np.prod(cd))
+        A = rng.standard_normal((N, M)) + 1j * rng.standard_normal((N, M))
+        V = cvxpy.Variable((N, M), complex=(kind != "real"))
+        val = A.real if kind == "real" else A
+        V.value = val
+        S = list(p["sys"])
+        got = partial_transpose(V, S, [list(d), list(cd)])
+        if not hasattr(got, "value"):
+            raise Violation("partial_transpose(cvxpy expression) did not return a cvxpy expression")
+        exp = R.ref_partial_transpose(val, S, d, cd)
+        _close(np.asarray(got.value), exp, "partial_transpose(rectangular cvxpy %s variable, rows %s, columns %s)" % (kind, list(d), list(cd)), 1e-10)
+        _close(np.asarray(got.value), partial_transpose(val, S, [list(d), list(cd)]), "variable path == numeric path (rectangular %s)" % kind, 1e-12)
+        return
     A = rng.standard_normal((N, N)) + 1j * rng.standard_normal((N, N))
     if kind == "real":
         V = cvxpy.Variable((N, N))
@@ -569,6 +602,8 @@ def frame_args(p):
     two_row = np.array([list(rd), list(cd)])
     one_row = np.array(list(rd))
     dimarg = two_row if p.get("dimform", "2row-array") == "2row-array" else one_row
+    if p.get("dimdtype") == "float":  # a dimension table computed with floating-point arithmetic (sqrt, division): no dtype conversion makes a hidden copy of it
+        dimarg = dimarg.astype(float)
     if fn == "partial_transpose":
         args = [X, np.array(p.get("sys", [0])), dimarg]
         f = ch.partial_transpose
